@@ -1,4 +1,4 @@
-import Pymeeus.Refine.LeapSeconds
+import Pymeeus.Refine.UtcReadback
 /-
 C10 — UTC <-> TT offset follows the IERS leap-second history and inverts.
 
@@ -96,6 +96,46 @@ theorem override_before_1972 (y m : Int) (d h mi s L : ℚ) (u : Option Bool) (h
   | ok t =>
     obtain ⟨rfl, hm1, hm12, _⟩ := check_values_ok y m d h mi s t hc
     simp only [compute_jde_kw_override_before _ _ _ _ hy]
+
+/-- "reading the date back with utc=True returns the original civil date" — exactly, in exact arithmetic: for every
+    civil date from 1972-01-01 (to the end of 9998; CPython's datetime, used by the code, stops at 9999), every time of
+    day h:mi:s (as a day fraction < 1), including the last seconds of a month closed by a leap second (whose TT image is
+    in the next month, where the count is one higher) and the first seconds after it. -/
+theorem readback_utc (y m d : Int) (h mi s j : ℚ) (hv : Valid y m d) (hy1 : 1972 ≤ y) (hy2 : y ≤ 9998)
+    (hf0 : 0 ≤ h / 24 + mi / 1440 + s / 86400) (hf1 : h / 24 + mi / 1440 + s / 86400 < 1)
+    (hj : epoch_set_kw y m (d : ℚ) h mi s (some true) none = .ok j) :
+    get_date_kw j (some true) none = .ok (y, m, (d : ℚ) + (h / 24 + mi / 1440 + s / 86400)) := by
+  unfold epoch_set_kw at hj
+  cases hc : check_values y (get_month_int m) (d : ℚ) h mi s with
+  | error e => simp [hc] at hj
+  | ok t =>
+    obtain ⟨rfl, hm1, hm12, _⟩ := check_values_ok y m (d : ℚ) h mi s t hc
+    simp only [hc, compute_jde_kw_utc _ _ _ hy1 hm1 hm12, Except.ok.injEq] at hj
+    rw [← hj]
+    have e : (d : ℚ) + (h / 24.0 + mi / 1440.0 + s / 86400.0) = (d : ℚ) + (h / 24 + mi / 1440 + s / 86400) := by norm_num
+    rw [e]
+    exact readback_utc_core y m d _ hv hy1 hy2 hf0 hf1
+
+/-- the leap-second boundary itself: 2016-12-31 23:59:30 UTC (TT image on 2017-01-01, count 27) reads back with the
+    count of December (26), and 2017-01-01 00:00:10 UTC with the count of January -/
+theorem readback_utc_at_leap_second :
+    (∃ j, epoch_set_kw 2016 12 31 23 59 30 (some true) none = .ok j ∧
+      get_date_kw j (some true) none = .ok (2016, 12, 31 + (23 / 24 + 59 / 1440 + 30 / 86400))) ∧
+    (∃ j, epoch_set_kw 2017 1 1 0 0 10 (some true) none = .ok j ∧
+      get_date_kw j (some true) none = .ok (2017, 1, 1 + 10 / 86400)) := by
+  constructor
+  · have hv : Valid 2016 12 31 := by decide
+    have hj : epoch_set_kw 2016 12 ((31 : Int) : ℚ) 23 59 30 (some true) none
+        = .ok (compute_jde 2016 12 (31 + (23 / 24 + 59 / 1440 + 30 / 86400)) + (32.184 + 10 + 26) / 86400) := by decide +kernel
+    refine ⟨_, by simpa using hj, ?_⟩
+    have := readback_utc 2016 12 31 23 59 30 _ hv (by decide) (by decide) (by norm_num) (by norm_num) hj
+    simpa using this
+  · have hv : Valid 2017 1 1 := by decide
+    have hj : epoch_set_kw 2017 1 ((1 : Int) : ℚ) 0 0 10 (some true) none
+        = .ok (compute_jde 2017 1 (1 + (0 / 24 + 0 / 1440 + 10 / 86400)) + (32.184 + 10 + 27) / 86400) := by decide +kernel
+    refine ⟨_, by simpa using hj, ?_⟩
+    have := readback_utc 2017 1 1 0 0 10 _ hv (by decide) (by decide) (by norm_num) (by norm_num) hj
+    simpa using this
 
 /-- "The Delta-T (TT - UT) polynomial stays within 3.5 s of 42.184 s + leap seconds over 1972-2018":
     every month of every year 1972..2018 (the rational model, evaluated by the kernel). -/
